@@ -193,7 +193,9 @@ def run_check():
 
     ncases = 200 if ck.tier == "quick" else 4000
     reqs, ctxs = [], []
-    for res in pmap(make_case, [(ck.seed, i) for i in range(ncases)]):
+    from ..common import replay_ids
+
+    for res in pmap(make_case, [(ck.seed, i) for i in replay_ids(ck, ncases)]):
         for req, ctx in res:
             if req == "CRASH":
                 ck.fail("peakstats", ctx["what"], ctx["case"], "crash")
@@ -204,7 +206,7 @@ def run_check():
     for ctx, resp in zip(ctxs, resps):
         st, mo = parse_resp(resp)
         freq, dirs, E, S, bp = ctx["freq"], ctx["dirs"], ctx["E"], ctx["S"], ctx["bp"]
-        case = dict(ctx["desc"], pos={k: int(v) for k, v in ctx["pos"].items()}, freq=[float(x) for x in freq],
+        case = dict(ctx["desc"], icase=ctx["icase"], pos={k: int(v) for k, v in ctx["pos"].items()}, freq=[float(x) for x in freq],
                     dirs=None if dirs is None else [float(x) for x in dirs], E=E.tolist())
         if st != "ok":
             ck.disagree("peakstats", f"model error {mo}", case)
